@@ -389,6 +389,35 @@ def self_once(rep, u):
         rep.undecided("R-STATE", fb, "self-once", desc, undec)
     else:
         rep.proved("R-STATE", fb, "self-once", desc, "4 flag combinations")
+    # the chain walk skips exactly the originator (msg_data->tpt), whoever is forwarding at the moment
+    fw = tp.need(u, "tpt_msg_one_by_one_send_next__int")
+    rep.functions.add(fw.name)
+    gets = [c for pos, root, c, ps in fw.calls({"tp_thread_get"})]
+    sends = [(pos, c) for pos, root, c, ps in fw.calls({"tpt_msg_send"})]
+    desc2 = "the one-by-one walk skips the originating thread and only that thread, whichever thread forwards"
+    if len(gets) != 1 or len(sends) != 1:
+        rep.violated("R-STATE", fw, "skip-originator", desc2, "walk not recognised: %d tp_thread_get, %d tpt_msg_send" % (len(gets), len(sends)))
+        return n
+    ORIG, FWD, OTHER = 0x1111, 0x2222, 0x3333
+    bad2 = None
+    und2 = None
+    for cand, nm in ((ORIG, "the originator"), (FWD, "the forwarding thread"), (OTHER, "a third thread")):
+        pe = r_stride.PE(u)
+        bind = {"tp": 0x1000, "src": FWD, "msg_data": 0x6000, "msg_data->tpt": ORIG, "msg_data->cur_thr_idx": 0, "msg_data->flags": O,
+                "tp_thread_count_max_get(tp)": 3, key(gets[0]): cand}
+        pos, c = sends[0]
+        r, _ = pe.reach_stmt(fw, fw.entry, set(fw.reachable_blocks()), bind, pos[0], fw.blocks[pos[0]].elems[pos[1]])
+        n += 1
+        if r == "unsure":
+            und2 = "skip test not evaluable"
+        elif (r == "sure") != (cand != ORIG):
+            bad2 = bad2 or "%s is %s" % (nm, "sent to" if r == "sure" else "skipped")
+    if bad2:
+        rep.violated("R-STATE", fw, "skip-originator", desc2, bad2 + " (originator, forwarder and a third thread evaluated)")
+    elif und2:
+        rep.undecided("R-STATE", fw, "skip-originator", desc2, und2)
+    else:
+        rep.proved("R-STATE", fw, "skip-originator", desc2, "originator skipped; forwarder and third thread sent to")
     return n
 
 
